@@ -312,7 +312,7 @@ func TestC28(t *testing.T) {
 		"/ipns/example.com/../x", "/ipns/" + g.names[0] + "/a/", "ipfs://" + g.cids[0] + "/a", "IPNS:" + g.names[1], "/ipfs/" + g.cids[0] + "/..//",
 		"/ipfs//" + g.cids[0], "//ipfs/" + g.cids[0], "/./ipfs/" + g.cids[0] + "/.", "/ipfs/" + g.cids[0] + "/\x00/ü",
 	}
-	nPaths := e.Pick(2600, 60000)
+	nPaths := e.Pick(1300, 30000)
 	for i := 0; i < nPaths; i++ {
 		var s string
 		if i < len(corpus) {
@@ -351,7 +351,7 @@ func TestC28(t *testing.T) {
 		}
 		st.Sample(rp, 4)
 	}
-	nUri := e.Pick(700, 15000)
+	nUri := e.Pick(350, 8000)
 	for i := 0; i < nUri; i++ {
 		scheme := g.pick(schemes)
 		slashes := g.coin(0.6)
